@@ -242,6 +242,32 @@ example : (match literalInt [48, 120, 55, 102, 70, 70, 117, 59] with
 example : (match literalInt [49, 56, 52, 52, 54, 55, 52, 52, 48, 55, 51, 55, 48, 57, 53, 53, 49, 54, 49, 54] with
      | .error (.lex _ r) => some r | _ => none) = some .IntegerLiteralTooLarge := by decide
 
+/-- how the dispatcher reaches the two numeric sub-lexers: on a digit, `token_intermediate` is `literal_float`, and
+exactly when that answers `OtherTokenBytes` (digits without fraction or exponent, or the `.x` bail-out) it is
+`literal_int` — so `int_value_exact` / `int_overflow_rejected` / `lex_float_nearest` are statements about the tokens
+of `read_to_end`. -/
+theorem token_numeric_dispatch (b : UInt8) (r : Bytes) (inc : Bool) (hd : 48 ≤ b.toNat ∧ b.toNat ≤ 57) :
+    tokenIntermediate (b :: r) inc =
+      (match literalFloat (b :: r) with
+       | .ok x => .ok x
+       | .error (.lex _ .OtherTokenBytes) => literalInt (b :: r)
+       | .error e => .error e) := by
+  simp only [tokenIntermediate, tokenStep, hd, and_self, if_true]
+  have ho := literalFloat_other (b :: r)
+  split
+  · rename_i x hx; rw [hx]
+  · rename_i pos hx
+    rw [hx] at ho ⊢
+    simp only [OtherAtStart] at ho
+    subst ho
+    simp [ErrAt.len]
+  · rename_i e hne hx
+    rw [hx]
+    split
+    · rename_i heq; cases heq
+    · rename_i pos heq; cases heq; exact absurd rfl (hne pos)
+    · rename_i heq; exact heq
+
 /-! ## Part 3 — floating literals -/
 
 /-- **lex_float_nearest**: an accepted float literal is the text `<left>[.<right>][e<exp>][#INF][suffix]`, and its
